@@ -143,6 +143,10 @@ func runOrderOnly(c *core.Ctx, only string) {
 						if b, ok := call.Call.Value.(*ssa.Builtin); ok && b.Name() == "append" {
 							found = true
 						}
+						// looking at the layer's own stack / details is the emit of GetOneLineSource
+						if call.Call.IsInvoke() && (call.Call.Method.Name() == "StackTrace" || call.Call.Method.Name() == "SafeDetails") {
+							found = true
+						}
 					}
 				})
 				return found
